@@ -7,7 +7,8 @@
    sigma i and one common n).  The executable twin (Gaussian rationals, Model/TensorFunctionals.v) is tied to /repo by
    the correspondence families of harness/props/C08.py; its coherence with the real model is in C08_transfer_*. *)
 From Coq Require Import Reals QArith Qreals List.
-From MrVerif Require Import Model.Functionals Proofs.FunctionalsProofs Proofs.FunctionalsTransfer.
+From MrVerif Require Import Base.Prelude Base.Tensor Model.Functionals Model.TensorFunctionals
+  Proofs.FunctionalsProofs Proofs.FunctionalsTransfer Proofs.FunctionalsTensorProofs.
 Import ListNotations.
 Local Open Scope R_scope.
 
@@ -272,7 +273,22 @@ Theorem C08_transfer_cabs : forall z : CQ, cqabs_ok z = true -> Q2R (cqabs z) = 
 Proof. exact cqabs_coh. Qed.
 Print Assumptions C08_transfer_cabs.
 
+(* ---- tensor layer: the N of divide_by_n ---------------------------------------------------------------------- *)
+(* prox / prox_convex_conj divide by math.prod(shape[i] for i in dim) (python indexing, negative i allowed); forward's
+   torch.mean divides by the number of reduced elements; both are the same N for every dim without repeated axes *)
+Theorem C08_divide_by_n_consistent : forall (sx : list Z) (dim : option (list Z)), (0 < length sx)%nat ->
+  match dim with None => True | Some ds => NoDup (map (fun d => (d mod Z.of_nat (length sx))%Z) ds) end ->
+  nprox sx dim = nred sx (norm_dims (Z.of_nat (length sx)) dim).
+Proof. exact nprox_nred. Qed.
+Print Assumptions C08_divide_by_n_consistent.
+
+Theorem C08_reduce_count : forall sx dims oflat, length (red_indices sx dims oflat) = Z.to_nat (nred sx dims).
+Proof. exact red_indices_length. Qed.
+Print Assumptions C08_reduce_count.
+
 (* ---- non-vacuity ------------------------------------------------------------------------------------------ *)
+Example C08_example_n : nprox [2; 3; 4]%Z (Some [-1; 0]%Z) = 8%Z /\ nred [2; 3; 4]%Z (norm_dims 3 (Some [-1; 0]%Z)) = 8%Z.
+Proof. vm_compute. split; reflexivity. Qed.
 Local Open Scope Q_scope.
 Example C08_example_soft : softQ (5 # 2) (1 # 1) == 3 # 2 /\ softQ (-(5 # 2)) 1 == -(3 # 2) /\ softQ (1 # 2) 1 == 0.
 Proof. vm_compute. repeat split; reflexivity. Qed.
